@@ -510,6 +510,52 @@ def subprocess_rm(path):
     shutil.rmtree(path, ignore_errors=True)
 
 
+KNOWN_ENV = {"MAGEFILE_VERBOSE": "1", "MAGEFILE_DEBUG": "1", "MAGEFILE_LIST": "1", "MAGEFILE_HELP": "1", "MAGEFILE_IGNOREDEFAULT": "1",
+             "MAGEFILE_TIMEOUT": "10m", "MAGEFILE_ENABLE_COLOR": "1", "MAGEFILE_TARGET_COLOR": "Red", "MAGEFILE_GOCMD": "go", "MAGEFILE_HASHFAST": "1"}
+
+
+def env_names():
+    """every MAGEFILE_* name in the non-test sources of the tree under test (lib/depslib.discover_knobs does the scan)"""
+    import depslib
+    return sorted((set(depslib.discover_knobs()) | set(depslib.KNOWN_KNOBS) | set(KNOWN_ENV)) - {"MAGEFILE_CACHE"})
+
+
+def run_invocations(ctx, mage, wrap, d, pr, names):
+    """the INVOCATION as a dimension: one fresh `mage ... -keep ...` process per front-end flag / environment setting;
+    returns [(label, sha1 of the kept generated source or None, rc)]"""
+    main = os.path.join(d, MAINFILE)
+    parent, base = os.path.dirname(d), os.path.basename(d)
+    locals_ = [fn for f in pr["files"] for fn, v in pr["local"][f]["funcs"] if v != 2]
+    tgt = locals_[0] if locals_ else None
+    plan = [("-l", d, ["-l"], None), ("-v -l", d, ["-v", "-l"], None), ("-debug -l", d, ["-debug", "-l"], None),
+            ("-t 10m -l", d, ["-t", "10m", "-l"], None), ("-t 1s -l", d, ["-t", "1s", "-l"], None), ("-f -l", d, ["-f", "-l"], None),
+            ("-gocmd go -l", d, ["-gocmd", "go", "-l"], None), ("-gocmd wrapper -l", d, ["-gocmd", wrap, "-l"], None),
+            ("-d rel -l", parent, ["-d", base, "-l"], None), ("-d abs -w abs -l", ctx.tmp, ["-d", d, "-w", d, "-l"], None),
+            ("-h", d, ["-h"], None), ("no arguments", d, [], None)]
+    if tgt:
+        plan += [("target", d, [tgt.lower()], None), ("-h target", d, ["-h", tgt.lower()], None), ("-v -t 2m target", d, ["-v", "-t", "2m", tgt.lower()], None)]
+    for n in names:
+        if n in KNOWN_ENV:
+            plan.append(("%s=%s -l" % (n, KNOWN_ENV[n]), d, ["-l"], {n: KNOWN_ENV[n]}))
+        else:
+            for val in ([tgt] if tgt else []) + ["1", "true", "10m"]:
+                plan.append(("%s=%s -l" % (n, val), d, ["-l"], {n: val}))
+    plan.append(("all known variables set -l", d, ["-l"], {k: v for k, v in KNOWN_ENV.items() if k not in ("MAGEFILE_HASHFAST", "MAGEFILE_HELP")}))
+    plan.append(("other MAGEFILE_CACHE -l", d, ["-l"], {"MAGEFILE_CACHE": os.path.join(ctx.tmp, "inv_cache2_" + pr["name"])}))
+    res = []
+    cache = os.path.join(ctx.tmp, "inv_cache_" + pr["name"])
+    for label, cwd, args, envx in plan:
+        if os.path.exists(main):
+            os.remove(main)
+        r = mage.run(cwd, ["-keep"] + args, env=envx, cache=cache, timeout=300, stdin=b"")
+        sha = None
+        if os.path.exists(main):
+            sha = hashlib.sha1(open(main, "rb").read()).hexdigest()
+            os.remove(main)
+        res.append((label, sha, r["rc"]))
+    return res
+
+
 def run_ops(binp, reqs):
     """reqs: [(dir, project, reps, real_reps, render)]: ONE unitrun process handles them one after the other"""
     lines = []
@@ -702,6 +748,7 @@ def run(ctx):
     runs_a, runs_b = (12, 4) if quick else (48, 16)
     reps, nprocs = (30, 4) if quick else (125, 4)      # beyond a few hundred repetitions nothing is gained: (7/8)^500 < 1e-28
     nhist = 3 if quick else 8
+    ninv = 2 if quick else 6
     projects, compile_projects = [], []
     if ctx.replay and ctx.replay.get("case"):
         c = ctx.replay["case"]
@@ -732,9 +779,16 @@ def run(ctx):
         if pr.get("variant"):
             prv = dict(pr, pkgs=dict(pr["pkgs"], **{pr["variant"]["path"]: pr["variant"]["pkg"]}))
             dirs[pr["name"] + "/var"] = mage.project(render(prv), name=pr["name"] + "_var", probe=False)
+        if projects.index(pr) < ninv and not pr.get("error"):
+            dirs[pr["name"] + "/inv"] = mage.project(render(pr), name=pr["name"] + "_inv", probe=False)
         if pr.get("history"):
             dirs[pr["name"] + "/hist"] = mage.project(render(pr), name=pr["name"] + "_hist", probe=False)
 
+    wrap = os.path.join(ctx.tmp, "gowrap.sh")
+    with open(wrap, "w") as f:
+        f.write(GOWRAP)
+    os.chmod(wrap, 0o755)
+    names_env = env_names()
     # tasks
     tasks = []
     for pi, pr in enumerate(projects):
@@ -742,6 +796,8 @@ def run(ctx):
         if not pr.get("error"):
             tasks.append((pi, "A", lambda da=da: fresh_runs(mage, da, runs_a, os.path.join(ctx.tmp, "cache_a"))))
             tasks.append((pi, "B", lambda db=db: fresh_runs(mage, db, runs_b, os.path.join(ctx.tmp, "cache_b"))))
+        if pr["name"] + "/inv" in dirs:
+            tasks.append((pi, "I", lambda pr=pr: run_invocations(ctx, mage, wrap, dirs[pr["name"] + "/inv"], pr, names_env)))
         if pr.get("history") and not pr.get("error"):
             tasks.append((pi, "H", lambda pr=pr: run_history(ctx, mage, binp, dirs[pr["name"] + "/hist"], pr)))
         if pr.get("variant") and not pr.get("error"):
@@ -752,10 +808,6 @@ def run(ctx):
         for k in range(nprocs):
             d = dc if k % 2 == 0 else dd
             tasks.append((pi, "op%d" % k, lambda d=d, pr=pr, k=k: run_op(binp, d, pr, reps, 2 if k == 0 else 0, k < 2)))
-    wrap = os.path.join(ctx.tmp, "gowrap.sh")
-    with open(wrap, "w") as f:
-        f.write(GOWRAP)
-    os.chmod(wrap, 0o755)
     bases = [os.path.join(ctx.tmp, "compile")]
     shm = None
     if os.path.isdir("/dev/shm") and os.access("/dev/shm", os.W_OK):
@@ -770,7 +822,7 @@ def run(ctx):
                     rep = order == "listed" and base == bases[0]        # the occupied-output repetitions: once per layout
                     tasks.append((("c", ci), "C", lambda cp=cp, layout=layout, order=order, base=base, rep=rep: run_compile(ctx, mage, wrap, cp, layout, order, base, rep)))
         tasks.append((("c", ci), "K", lambda cp=cp: run_cache_attrs(ctx, mage, cp)))
-    tasks.sort(key=lambda t: t[1] not in ("H", "C", "K"))          # the histories are the longest tasks: start them first
+    tasks.sort(key=lambda t: t[1] not in ("I", "H", "C", "K"))          # the histories are the longest tasks: start them first
     ctx.log("projects created; %d tasks" % len(tasks))
     import time as _t
     def timed(t):
@@ -793,6 +845,7 @@ def run(ctx):
     items, item_proj = [], []
     build_failures = []
     hist_gens, hist_cov = 0, {}
+    inv_runs, inv_nogen = 0, []
     cross_gens = 0
     n_oracle = 0
     cov = ctx.coverage
@@ -871,6 +924,22 @@ def run(ctx):
                            "file_sha1": file_sha, "in_process_sha1": main_shas[0]}, case=case, found_input=False)
         items.append(case_term(pr, ops[0], proj, fobs))
         item_proj.append((pr, proj, fobs))
+        # ---- oracle 7: the invocation (flags, environment) must not reach the generated source
+        if "I" in r:
+            shas = {}
+            for label, sha, rc in r["I"]:
+                inv_runs += 1
+                if sha is None:
+                    inv_nogen.append(label)
+                else:
+                    shas.setdefault(sha, []).append(label)
+            if file_sha:
+                shas.setdefault(file_sha, []).append("(plain `mage -keep -l`, %d runs)" % runs_a)
+            if len(shas) > 1 and n_oracle < 5:
+                n_oracle += 1
+                ref = max(shas.values(), key=len)
+                ctx.violation({"kind": "oracle", "clause": "the kept generated source differs between invocations (flags / environment) of mage on the same magefiles",
+                               "deviating_invocations": {k[:10]: v for k, v in shas.items() if v is not ref}, "agreeing": len(ref)}, case=case)
         # ---- oracle 5: two projects in one process (same module path and import paths, one imported package differs)
         if "X" in r:
             seq, fresh_var = r["X"]
@@ -1024,6 +1093,9 @@ def run(ctx):
     if build_failures and not ctx.violations:
         raise BuildError("; ".join(build_failures)[:3000])
     cov["cross_project_generations"] = cross_gens
+    cov["invocation_runs"] = inv_runs
+    cov["invocation_environment_names"] = names_env
+    cov["invocations_without_generation"] = sorted(set(inv_nogen))
     cov["compile_runs"] = compile_runs
     cov["compiles_to_an_occupied_output_path"] = occupied_runs
     cov["cache_directory_attribute_runs"] = cache_runs
@@ -1032,7 +1104,7 @@ def run(ctx):
     cov["history_generations"] = hist_gens
     cov["history_states"] = hist_cov
     cov["histories"] = sum(1 for p in projects if p.get("history") and not p.get("error"))
-    cov["evaluations"] = tot_runs + tot_reps + hist_gens + cross_gens + compile_runs + occupied_runs + cache_runs
+    cov["evaluations"] = tot_runs + tot_reps + hist_gens + cross_gens + compile_runs + occupied_runs + cache_runs + inv_runs
     cov["distinct_nontrivial"] = nontriv
     cov["rule"] = ("one evaluation = one generation of the main file (a fresh `mage -keep -l` process, or one in-process parse.PrimaryPackage+sort(+render) repetition); "
                    "distinct = generated projects; non-trivial = at least one competing pair (equal package names among named or among root imports, one path with two aliases, or two non-empty package comments)")
